@@ -34,6 +34,7 @@ const PS_SIN_COEFFICIENTS1: __m128 = m128_from_f32x4([
     -0.000_185_246_7, /*Est3*/
 ]);
 const PS_ONE: __m128 = m128_from_f32x4([1.0; 4]);
+const PS_ONE_HALF: __m128 = m128_from_f32x4([0.5; 4]);
 const PS_TWO_PI: __m128 = m128_from_f32x4([core::f32::consts::TAU; 4]);
 const PS_RECIPROCAL_TWO_PI: __m128 = m128_from_f32x4([0.159_154_94; 4]);
 
@@ -146,16 +147,14 @@ pub(crate) unsafe fn m128_neg_mul_sub(a: __m128, b: __m128, c: __m128) -> __m128
 
 #[inline]
 pub(crate) unsafe fn m128_round(v: __m128) -> __m128 {
-    // Based on https://github.com/microsoft/DirectXMath `XMVectorRound`
-    let sign = _mm_and_ps(v, PS_SIGN_MASK);
-    let s_magic = _mm_or_ps(PS_NO_FRACTION, sign);
-    let r1 = _mm_add_ps(v, s_magic);
-    let r1 = _mm_sub_ps(r1, s_magic);
-    let r2 = _mm_and_ps(v, PS_INV_SIGN_MASK);
-    let mask = _mm_cmple_ps(r2, PS_NO_FRACTION);
-    let r2 = _mm_andnot_ps(mask, v);
-    let r1 = _mm_and_ps(r1, mask);
-    _mm_xor_ps(r1, r2)
+    // Round half-way cases away from zero, as `f32::round` does: truncate, then add
+    // copysign(1, v) where the discarded fraction is at least one half. Every
+    // intermediate result is exact.
+    let r = m128_trunc(v);
+    let frac = _mm_and_ps(_mm_sub_ps(v, r), PS_INV_SIGN_MASK);
+    let away = _mm_cmpge_ps(frac, PS_ONE_HALF);
+    let one = _mm_or_ps(_mm_and_ps(v, PS_SIGN_MASK), PS_ONE);
+    _mm_add_ps(r, _mm_and_ps(away, one))
 }
 
 #[inline]
